@@ -469,3 +469,104 @@ Definition load_dataset (split : option part) (train test : res parsed)
 (* return_X_y=False: the frame X with y attached as column class_val *)
 Definition single_frame (Xy : list row * list str) : list (row * str) :=
   combine (fst Xy) (snd Xy).
+
+(* ---------------------------------------------------------------- histories of loader calls
+
+   load_<dataset>(split, return_X_y) parses the bundled files AGAIN on every call and builds NEW
+   objects: its result is a function of its arguments (and the two files), never of the calls made
+   before, nor of what a caller did to an object it was handed earlier. *)
+
+Inductive form := FormXy | FormFrame.        (* return_X_y=True / False *)
+Definition lcall := (option part * form)%type.
+
+(* what a call hands to the caller: (X, y), or the single frame = X's rows with class_val attached *)
+Inductive loaded :=
+  | LXy (X : list row) (y : list str)
+  | LFrame (rows : list (row * str)).
+
+Definition pure_load (train test : res parsed) (c : lcall) : res loaded :=
+  match load_dataset (fst c) train test with
+  | Ok Xy => Ok match snd c with
+                | FormXy => LXy (fst Xy) (snd Xy)
+                | FormFrame => LFrame (single_frame Xy)
+                end
+  | Err => Err
+  end.
+
+(* what a caller may do, in place, to an object it holds *)
+Inductive mutation :=
+  | MDropFirst                 (* X.drop(X.index[0], inplace=True) *)
+  | MSetLabel (s : str)        (* y[0] = s   /   frame.iloc[0, class_val] = s *)
+  | MSetCell (s : series)      (* X.iat[0, 0] = <series>, or an in-place edit of that nested series *)
+  | MAddColumn (s : series).   (* X["extra"] = <the same series in every row> (before class_val) *)
+
+Definition set_hd {A} (f : A -> A) (l : list A) : list A :=
+  match l with [] => [] | x :: t => f x :: t end.
+Definition set_cell0 (s : series) (r : row) : row := set_hd (fun _ => s) r.
+
+Definition mutate (m : mutation) (o : loaded) : loaded :=
+  match o, m with
+  | LXy X y, MDropFirst => LXy (tl X) y              (* y is a separate object: it keeps its length *)
+  | LXy X y, MSetLabel s => LXy X (set_hd (fun _ => s) y)
+  | LXy X y, MSetCell s => LXy (set_hd (set_cell0 s) X) y
+  | LXy X y, MAddColumn s => LXy (map (fun r => r ++ [s]) X) y
+  | LFrame rows, MDropFirst => LFrame (tl rows)
+  | LFrame rows, MSetLabel s => LFrame (set_hd (fun rl => (fst rl, s)) rows)
+  | LFrame rows, MSetCell s => LFrame (set_hd (fun rl => (set_cell0 s (fst rl), snd rl)) rows)
+  | LFrame rows, MAddColumn s => LFrame (map (fun rl => (fst rl ++ [s], snd rl)) rows)
+  end.
+
+Inductive hop :=
+  | HLoad (c : lcall)                        (* one more loader call; its result is object #k, k = number of earlier calls *)
+  | HMutate (k : nat) (m : mutation).        (* the caller edits object #k *)
+
+Fixpoint set_nth {A} (k : nat) (f : A -> A) (l : list A) : list A :=
+  match l, k with
+  | [], _ => []
+  | x :: t, O => f x :: t
+  | x :: t, S j => x :: set_nth j f t
+  end.
+
+(* state: (the objects the caller holds, as they are NOW; the values the calls returned THEN) *)
+Definition hstate := (list (res loaded) * list (res loaded))%type.
+
+Definition hstep (train test : res parsed) (st : hstate) (o : hop) : hstate :=
+  match o with
+  | HLoad c => let v := pure_load train test c in (fst st ++ [v], snd st ++ [v])
+  | HMutate k m => (set_nth k (rmap (mutate m)) (fst st), snd st)
+  end.
+Definition run_history (train test : res parsed) (ops : list hop) (st : hstate) : hstate :=
+  fold_left (hstep train test) ops st.
+
+Fixpoint loads_of (ops : list hop) : list lcall :=
+  match ops with
+  | [] => []
+  | HLoad c :: t => c :: loads_of t
+  | HMutate _ _ :: t => loads_of t
+  end.
+Definition mutates (k : nat) (o : hop) : bool :=
+  match o with HMutate j _ => Nat.eqb j k | HLoad _ => false end.
+
+(* NOT the source: the regression C18-a.  Each file is parsed once and kept; a named split hands out
+   the kept X itself, and the single-frame form attaches class_val to that kept object in place.
+   Kept here so that the regression has a meaning in the model (History.v refutes it). *)
+Definition attach (Xy : list row * list str) : list row :=
+  map (fun rl => fst rl ++ [[snd rl]]) (combine (fst Xy) (snd Xy)).
+Definition cached_X (attached : bool) (Xy : list row * list str) : list row :=
+  if attached then attach Xy else fst Xy.
+(* state: has class_val been attached to the kept train / test frame? *)
+Definition cached_step (train test : list row * list str) (st : (bool * bool) * list loaded)
+           (c : lcall) : (bool * bool) * list loaded :=
+  let '(atr, ate, out) := st in
+  match c with
+  | (Some Train, FormXy) => (atr, ate, out ++ [LXy (cached_X atr train) (snd train)])
+  | (Some Test, FormXy) => (atr, ate, out ++ [LXy (cached_X ate test) (snd test)])
+  | (Some Train, FormFrame) => (true, ate, out ++ [LFrame (single_frame train)])
+  | (Some Test, FormFrame) => (atr, true, out ++ [LFrame (single_frame test)])
+  | (None, FormXy) => (atr, ate, out ++ [LXy (cached_X atr train ++ cached_X ate test)
+                                             (snd train ++ snd test)])
+  | (None, FormFrame) => (atr, ate, out ++ [LFrame (combine (cached_X atr train ++ cached_X ate test)
+                                                            (snd train ++ snd test))])
+  end.
+Definition cached_history (train test : list row * list str) (cs : list lcall) : list loaded :=
+  snd (fold_left (cached_step train test) cs (false, false, [])).
